@@ -140,6 +140,7 @@ def run(repo, rep, tier):
     r1 = rep.rule("R2.1", "weight gate: no effect for NaN / non-positive weights (all 19 fill)", floor=19 * 3)
     r2 = rep.rule("R2.2", "routing table per region equals the specified table", floor=80)
     r3 = rep.rule("R2.3", "accumulator updates normalise to the specified functions; min/max mirror", floor=8)
+    rep.borrow(repo, "C03", {"R3.8": ("R2.8", "the scalar bin index is the floating-point expression the vectorised reference path computes (a datum exactly on an edge is assigned to the same bin by both)", 2)})
     r4 = rep.rule("R2.4", "Average/Deviate: IEEE class of mean/variance after a fill, all (state class x datum class) pairs", floor=80)
     nregions = 0
     from ..interp import Machine
